@@ -5,18 +5,18 @@ import json, subprocess
 REPO_HOOK_COMMITS = ["a604701"]
 
 CHECKS = {
- "C01": ("exploration", "3.C01", "Seeded simulation of map histories (fault-free configuration) against an identity-level reference model; every return value and the full contents after every step, in the dev and release profiles, all element classes, five hasher quality modes. Sampling, not proof.", "deterministic simulation: seeded histories vs reference model"),
+ "C01": ("exploration", "3.C01", "Seeded simulation of map histories against an identity-level reference model; every return value and the full contents after every step, in the dev and release profiles, all element classes, five hasher quality modes; the only fault kind is iterators that lie in size_hint (extend). Sampling, not proof.", "deterministic simulation: seeded histories vs reference model"),
  "C02": ("exploration", "3.C02", "Per-call work read off the simulator's seams (hash computations, table allocations, elements moved) compared with the stated constants on every call of seeded histories.", "deterministic simulation: work counters on hasher/allocator seams"),
  "C03": ("exploration", "3.C03", "Bounded-liveness monitor: countdown ceil(L/R) armed when a resize starts; live table allocations compared with the hook state after every step.", "deterministic simulation: bounded-progress monitor + allocator accounting"),
  "C04": ("exploration", "3.C04", "Headroom invariant and capacity()>=len() after every step of churn/shrink/reserve histories; every run ends by filling to capacity with fresh keys (no panic, no allocation, capacity monotone, no resize left).", "deterministic simulation: invariant + end-of-run probe"),
  "C05": ("exploration", "3.C05", "Union workload under AddressSanitizer and the dev profile with canary/liveness element types and the cached-iterator agreement invariant after every step; process aborts are violations.", "deterministic simulation under ASan + canary elements + hook invariant"),
- "C06": ("exploration", "3.C06", "Object ledger (exactly-once drop, no leak) after every step and at teardown, with drain/drain_filter/into_iter cancelled (dropped or forgotten) after k steps.", "deterministic simulation: drop ledger with cancellation of lazy operations"),
+ "C06": ("exploration", "3.C06", "Object ledger (exactly-once drop, no leak) after every step and at teardown, with drain/drain_filter/into_iter cancelled (dropped or forgotten) after k steps; one run in 512 (quick) / 32 (thorough) samples a small state and enumerates every cancellation point k in 0..=len for each lazy operation.", "deterministic simulation: drop ledger with cancellation of lazy operations"),
  "C07": ("fault_enumeration", "3.C07", "For each explored (state, operation) every user callback the operation performs gets its own execution with a panic injected exactly there; state judged after catch_unwind, model adopts it, rest of the schedule checked exactly. States are sampled, crash points per (state, op) are enumerated completely (up to 64 per op).", "deterministic simulation: crash-point enumeration of user callbacks"),
- "C08": ("exploration", "3.C08", "Every iterator kind checked for exact len/size_hint at every step, fusedness, clone independence, keys/values order; drain and into_iter consumed, dropped or forgotten after k steps.", "deterministic simulation: iterator protocol checks with cancellation"),
- "C09": ("exploration", "3.C09", "retain/drain_filter with explicit-subset predicates (incl. exactly the old / main table), value mutation, call log, early drop and forget.", "deterministic simulation: predicate call log vs reference partition"),
+ "C08": ("exploration", "3.C08", "Every iterator kind checked for exact len/size_hint at every step, fusedness, clone independence, keys/values order; drain and into_iter consumed, dropped or forgotten after k steps (sampled, and enumerated for every k in sampled small states); a third of the runs inject a panic into a user callback first and judge the iterators against what lookups find afterwards.", "deterministic simulation: iterator protocol checks with cancellation"),
+ "C09": ("exploration", "3.C09", "retain/drain_filter with explicit-subset predicates (incl. exactly the old / main table), value mutation, call log, early drop and forget at sampled - and in sampled small states every - position.", "deterministic simulation: predicate call log vs reference partition"),
  "C10": ("fault_enumeration", "3.C10", "In sampled states (any resize phase) the whole boundary set of size arguments (0, 1, free-1/free/free+1, len, cap, 2 cap, 4096, values within len+2*ceil(len/8)+2 of usize::MAX, isize::MAX and isize::MAX/size_of element, and requests above the simulated allocation limit) is applied to reserve, try_reserve, try_reserve with a failing allocator and shrink_to, each followed by the fill probe and a full contents comparison; dev and release builds.", "deterministic simulation: boundary-argument and allocation-failure enumeration in sampled states"),
  "C11": ("exploration", "3.C11", "clone/clone_from between maps with different hasher state in independent resize phases, then divergent histories against separate models and a shared ledger.", "deterministic simulation: two-collection histories vs two models"),
- "C12": ("exploration", "3.C12", "Entry/RawEntryMut method chains of depth <= 4 on keys chosen by location class; every accessor against the model; references returned by inserting calls written through and read back.", "deterministic simulation: handle chains vs reference model"),
+ "C12": ("exploration", "3.C12", "Entry/RawEntryMut method chains of depth <= 4 on keys chosen by location class; every accessor against the model; references returned by inserting calls written through and read back; in sampled small states the whole chain grammar up to depth 2 (quick) / 3 (thorough) x key location class x lookup flavour is enumerated, each chain from a rebuilt copy of the state.", "deterministic simulation: handle chains vs reference model"),
  "C13": ("exploration", "3.C13", "Set histories and set algebra between three sets in independent phases against BTreeSet (fault-free configuration).", "deterministic simulation: seeded histories vs reference model"),
  "C14": ("exploration", "3.C14", "Metamorphic: three maps and three sets are brought to the same contents by different histories (permuted order, detours, capacity games, extend), capacities, resize phases and hasher states; ==, lookups of every key, every iterator and Debug must agree with the common model; then one value / one element is changed (preferably in the old table) and == must turn false.", "deterministic simulation: metamorphic histories, hasher state as the varied nondeterminism"),
  "C15": ("exploration", "3.C15", "Real rayon 1.12 plumbing, hashbrown's parallel raw iterator and griddle's rayon glue run over a simulator-owned rayon-core replacement on shuttle: seeded coins decide which half of every join is stolen (so rayon's own Splitter builds different split trees), shuttle's seeded random/PCT scheduler decides the interleaving; per-element visit counters and in-use flags, collected multisets, par_extend/from_par_iter vs sequential extend, par_eq/par_is_* vs sequential predicates. Pool sizes 1..16, any resize phase.", "deterministic simulation: simulator-owned work-stealing decisions + shuttle schedules"),
